@@ -220,7 +220,15 @@ def worker(lz, src, dst, mode):
         for n, line in enumerate(f):
             item = json.loads(line)
             out.write(json.dumps(dict(begin=n)) + "\n"); out.flush()
-            data, plain, layout, streams = build_file(lz, coders, item)
+            try:
+                data, plain, layout, streams = build_file(lz, coders, item)
+            except (AssertionError, RuntimeError, IndexError) as e:
+                # the encoder failed or its output does not parse as the Streams it should be (header, Blocks,
+                # Index of Backward Size bytes, footer): a fault of the library, not of the harness
+                import traceback
+                out.write(json.dumps(dict(done=n, res=dict(key="fileinfo:encoder_output", step=-1,
+                                                           detail=traceback.format_exc()[-1500:]))) + "\n"); out.flush()
+                continue
             if mode == "fi_build":
                 res = dict(layout=layout, size=len(data), plain=len(plain),
                            history=history_of(streams, [s["pad"] for s in item["streams"]]))
